@@ -52,11 +52,25 @@ def intSum : List Mod → Int
   | [] => 0
   | m :: r => (match m.val with | .int i => i * m.mult | _ => 0) + intSum r
 
-/-- `round(sum(mod_mass(mod) for mod in mods), precision)` as a modification value -/
-def roundedSumVal (E : Env) (l : List Mod) (p : Nat) : ModVal :=
-  if allInt l then .int (intSum l) else .flt (decText (roundNum (sumMods E l) p) p)
+/-- a number as the function writes it: a Python int, or a float that is `k / 10^p` after `round(x, p)` -/
+inductive Num where
+  | int (i : Int)
+  | dec (k : Int)
+  deriving DecidableEq, Repr, Inhabited
 
-def roundedSumMod (E : Env) (l : List Mod) (p : Nat) : Mod := ⟨roundedSumVal E l p, 1⟩
+def Num.toVal (p : Nat) : Num → ModVal
+  | .int i => .int i
+  | .dec k => .flt (decText k p)
+
+def Num.toRat (p : Nat) : Num → Rat
+  | .int i => i
+  | .dec k => (k : Rat) / (pow10 p : Nat)
+
+def Num.toMods (p : Nat) (n : Num) : List Mod := [⟨n.toVal p, 1⟩]
+
+/-- `round(sum(mod_mass(mod) for mod in mods), precision)` -/
+def roundedSum (E : Env) (l : List Mod) (p : Nat) : Num :=
+  if allInt l then .int (intSum l) else .dec (roundNum (sumMods E l) p)
 
 def absQ (x : Rat) : Rat := if x < 0 then -x else x
 
@@ -87,52 +101,74 @@ def termLabelShift (E : Env) (comp : Comp) : Option (List Mod) → Except Err Ra
     | .error e => .error e
     | .ok lm => .ok (chemMass E.em (relabel comp lm) - chemMass E.em comp)
 
-/-- the loop: `(index, rounded shift)` for every piece whose difference (terminal label shifts `t` taken off) is significant -/
-def pieceShifts (E : Env) (p : Nat) (t : Rat) : List Annotation → Nat → Except Err (List (Int × List Mod))
+/-- the loop: `(index, numerator of the rounded shift)` for every piece whose difference (terminal label shifts `t`
+taken off) is significant -/
+def pieceShifts (E : Env) (p : Nat) (t : Rat) : List Annotation → Nat → Except Err (List (Nat × Int))
   | [], _ => .ok []
   | piece :: r, i =>
     match pieceDiff E piece with
     | .error e => .error e
     | .ok d0 =>
-      let d := d0 - t
       match pieceShifts E p t r (i + 1) with
       | .error e => .error e
       | .ok rest =>
-        if absQ d > threshold then .ok ((Int.ofNat i, [⟨.flt (decText (roundNum d p) p), 1⟩]) :: rest)
+        if absQ (d0 - t) > threshold then .ok ((i, roundNum (d0 - t) p) :: rest)
         else .ok rest
 
-def condenseInterval (E : Env) (p : Nat) (iv : Interval) : Interval :=
-  match iv.mods with
-  | some l => { iv with mods := some [roundedSumMod E l p] }
-  | none => iv
-
 /-- a terminus: the rounded sum of its mods, plus the label shift of its H / OH when that is significant -/
-def termMods (E : Env) (p : Nat) (mods : Option (List Mod)) (shift : Rat) : Option (List Mod) :=
-  if absQ shift > threshold then
-    some [⟨.flt (decText (roundNum (sumMods E (mods.getD []) + shift) p) p), 1⟩]
-  else mods.map fun l => [roundedSumMod E l p]
+def termNum (E : Env) (p : Nat) (mods : Option (List Mod)) (shift : Rat) : Option Num :=
+  if absQ shift > threshold then some (.dec (roundNum (sumMods E (mods.getD []) + shift) p))
+  else mods.map fun l => roundedSum E l p
+
+/-- everything the function writes, as numbers -/
+structure Shifts where
+  internal : List (Nat × Int)
+  nterm : Option Num
+  cterm : Option Num
+  labile : Option Num
+  unknown : Option Num
+  /-- one entry per interval of the input, `none` for an interval without mods -/
+  intervals : Option (List (Interval × Option Num))
+  deriving Repr
+
+/-- steps 0–4 on the condensed annotation `c` -/
+def shiftsOf (E : Env) (c : Annotation) (p : Nat) : Except Err Shifts :=
+  match termLabelShift E E.ntermComp c.isotope, termLabelShift E E.ctermComp c.isotope with
+  | .error e, _ => .error e
+  | _, .error e => .error e
+  | .ok nts, .ok cts =>
+    match pieceShifts E p (nts + cts) (splitPieces (core c)) 0 with
+    | .error e => .error e
+    | .ok shifts =>
+      .ok { internal := shifts,
+            nterm := termNum E p c.nterm nts,
+            cterm := termNum E p c.cterm cts,
+            labile := c.labile.map fun l => roundedSum E l p,
+            unknown := c.unknown.map fun l => roundedSum E l p,
+            intervals := c.intervals.map fun l => l.map fun iv => (iv, iv.mods.map fun ms => roundedSum E ms p) }
+
+/-- the output annotation: every number becomes one modification with multiplier 1 -/
+def render (c : Annotation) (s : Shifts) (p : Nat) : Annotation :=
+  { seq := c.seq,
+    internal := (match s.internal with
+                 | [] => none
+                 | l => some (l.map fun q => (Int.ofNat q.1, (Num.dec q.2).toMods p))),
+    nterm := s.nterm.map (Num.toMods p),
+    cterm := s.cterm.map (Num.toMods p),
+    labile := s.labile.map (Num.toMods p),
+    unknown := s.unknown.map (Num.toMods p),
+    intervals := s.intervals.map fun l => l.map fun q => { q.1 with mods := q.2.map (Num.toMods p) },
+    charge := c.charge,
+    adducts := c.adducts }
 
 /-- `new_annotation` just before it is serialised -/
 def condenseToMassAnn (E : Env) (a : Annotation) (p : Nat) : Except Err Annotation :=
   match condenseStatic a with
   | .error e => .error e
   | .ok c =>
-    match termLabelShift E E.ntermComp c.isotope, termLabelShift E E.ctermComp c.isotope with
-    | .error e, _ => .error e
-    | _, .error e => .error e
-    | .ok nts, .ok cts =>
-    match pieceShifts E p (nts + cts) (splitPieces (core c)) 0 with
+    match shiftsOf E c p with
     | .error e => .error e
-    | .ok shifts =>
-      .ok { seq := c.seq,
-            internal := (match shifts with | [] => none | l => some l),
-            nterm := termMods E p c.nterm nts,
-            cterm := termMods E p c.cterm cts,
-            labile := c.labile.map fun l => [roundedSumMod E l p],
-            unknown := c.unknown.map fun l => [roundedSumMod E l p],
-            intervals := c.intervals.map fun l => l.map (condenseInterval E p),
-            charge := c.charge,
-            adducts := c.adducts }
+    | .ok s => .ok (render c s p)
 
 /-- `condense_to_mass_mods(annotation, include_plus, precision)` -/
 def condenseToMass (E : Env) (a : Annotation) (plus : Bool) (p : Nat) : Except Err (List Char) :=
